@@ -362,6 +362,29 @@ func CmaxPrefixes() []*big.Int {
 	return dedupe(out)
 }
 
+// WeylShapes returns n coefficients of mixed lengths from a fixed multiplicative (Weyl) sequence: a deterministic
+// alphabet of "generic" digit values (no structure in the middle digits or words), the complement of the shape families.
+func WeylShapes(n int) []*big.Int {
+	var out []*big.Int
+	x := new(big.Int)
+	step, _ := new(big.Int).SetString("9e3779b97f4a7c15f39cc0605cedc834", 16)
+	mod := new(big.Int).Lsh(big.NewInt(1), 128)
+	for i := 0; i < n; i++ {
+		x.Add(x, step).Mod(x, mod)
+		c := new(big.Int).Set(x)
+		// vary the length: 35, 34, 30, 25, 20, 19, 12 digits
+		L := []int{35, 34, 34, 30, 25, 20, 19, 12}[i%8]
+		c.Mod(c, ref.Pow10(L))
+		if c.Cmp(ref.Cmax) > 0 {
+			c.Rsh(c, 4)
+		}
+		if c.Sign() > 0 {
+			out = append(out, c)
+		}
+	}
+	return dedupe(out)
+}
+
 var quickLens = []int{1, 2, 3, 4, 5, 8, 9, 10, 16, 17, 18, 19, 20, 21, 33, 34, 35}
 
 // Shapes is the coefficient alphabet K.
@@ -373,6 +396,7 @@ func Shapes(thorough bool) []*big.Int {
 		}
 		out = append(out, WordShapes()...)
 		out = append(out, CmaxPrefixes()...)
+		out = append(out, WeylShapes(40)...)
 	} else {
 		inQuick := map[int]bool{}
 		for _, L := range quickLens {
